@@ -13,8 +13,10 @@ steps), clean restarts, occasional injected failures (write / open / sync) and f
 Oracle after every `on_batch` attempt, from the filesystem's op log and state:
  (a) all writes of the attempt went to one file;
  (b) that file is named `prefix.period.counter.id.ext` (exact grammar) and `period` is the period,
-     computed by civil-from-days, of the clock reading of that batch; every file created is named
-     like that too;
+     computed by civil-from-days, of a clock reading taken DURING that batch (the injected clock
+     counts its reads and, in most cases, advances on every reading by a sub-millisecond to
+     multi-second step, so the readings of one batch are known exactly); every file created is
+     named like that too;
  (c) compared with the previous successful batch (no restart / failure in between) the file changed
      iff the period changed or size-before + batch bytes > limit;
  (d) after every successful batch the members (exact grammar, this prefix / ext) number at most
@@ -40,12 +42,24 @@ const MAX_NANOS: u64 = 16_725_225_599 * 1_000_000_000; // 2499-12-31T23:59:59Z (
 
 #[derive(Clone, Debug)]
 enum Step {
-    Batch { delta_ms: i64, delta_sub_ns: u64, sizes: Vec<usize>, fail_at: Option<usize> },
+    Batch { delta_ms: i64, delta_sub_ns: u64, snap: Option<Snap>, sizes: Vec<usize>, fail_at: Option<usize> },
     Restart { reuse: bool },
+}
+
+/// Put the clock just before a boundary (monotone: only ever forwards), so that with a stepping
+/// clock consecutive readings straddle it.
+#[derive(Clone, Copy, Debug)]
+enum Snap {
+    /// this many nanoseconds before the next period boundary
+    Period(u64),
+    /// this many nanoseconds before the next millisecond boundary
+    Milli(u64),
 }
 
 struct Case {
     idx: u64,
+    /// the clock advances by this much on EVERY reading (0 = frozen between the harness's own steps)
+    clock_step_ns: u64,
     cfg: Cfg,
     reuse0: bool,
     ids: IdMode,
@@ -148,6 +162,18 @@ fn gen_case(seed: u64, idx: u64) -> Case {
         }
     }
 
+    let clock_step_ns = match g.below(12) {
+        0 | 1 | 2 => 0,
+        3 => 137_000,
+        4 => 400_000,
+        5 => 999_999,
+        6 => 1_000_000,
+        7 => 2_500_000,
+        8 => 40_000_000,
+        9 => 1_000_000_000,
+        10 => 7_300_000_000,
+        _ => 1 + g.below(3_000_000),
+    };
     let n_steps = 2 + g.usize(14);
     let mut steps = Vec::new();
     let period_ms = (roll.period_nanos() / 1_000_000) as i64;
@@ -175,6 +201,14 @@ fn gen_case(seed: u64, idx: u64) -> Case {
         let delta_sub_ns = if g.chance(1, 4) { g.below(1_000_000) } else { 0 };
         let next = (now as i128 + delta_ms as i128 * 1_000_000 + delta_sub_ns as i128).clamp(0, MAX_NANOS as i128) as u64;
         now = next;
+        let snap = if g.chance(1, 5) {
+            // within one or two clock steps of the boundary (a few ms when the clock is frozen)
+            let span = if clock_step_ns == 0 { 3_000_000 } else { 2 * clock_step_ns };
+            let x = 1 + g.below(span);
+            Some(if g.chance(2, 3) { Snap::Period(x) } else { Snap::Milli(x % 1_000_000 + 1) })
+        } else {
+            None
+        };
         let n = 1 + g.usize(4);
         let sizes = (0..n)
             .map(|_| {
@@ -183,24 +217,25 @@ fn gen_case(seed: u64, idx: u64) -> Case {
             })
             .collect();
         let fail_at = if g.chance(1, 10) { Some(g.usize(9)) } else { None };
-        steps.push(Step::Batch { delta_ms, delta_sub_ns, sizes, fail_at });
+        steps.push(Step::Batch { delta_ms, delta_sub_ns, snap, sizes, fail_at });
     }
     let ids = match g.below(8) {
         0 => IdMode::Small(3),
         1 => IdMode::Counting,
         _ => IdMode::Random,
     };
-    Case { idx, cfg, reuse0: g.bool(), ids, start, dir_exists: g.bool(), pre, steps }
+    Case { idx, clock_step_ns, cfg, reuse0: g.bool(), ids, start, dir_exists: g.bool(), pre, steps }
 }
 
 impl Case {
     fn to_json(&self) -> Json {
         json!({
             "config": self.cfg.to_json(), "reuse_files": self.reuse0, "ids": format!("{:?}", self.ids),
-            "start_unix_nanos": self.start, "dir_exists": self.dir_exists,
+            "start_unix_nanos": self.start, "dir_exists": self.dir_exists, "clock_advances_on_every_reading_ns": self.clock_step_ns,
             "pre_existing": self.pre.iter().map(|(n, l, c)| json!([n, l, c])).collect::<Vec<_>>(),
             "steps": self.steps.iter().map(|s| match s {
-                Step::Batch { delta_ms, delta_sub_ns, sizes, fail_at } => json!({"batch": sizes, "clock_delta_ms": delta_ms, "clock_delta_sub_ns": delta_sub_ns, "fail_at_op_offset": fail_at}),
+                Step::Batch { delta_ms, delta_sub_ns, snap, sizes, fail_at } => json!({"batch": sizes, "clock_delta_ms": delta_ms, "clock_delta_sub_ns": delta_sub_ns,
+                    "clock_snapped_before_boundary": snap.map(|s| format!("{:?}", s)), "fail_at_op_offset": fail_at}),
                 Step::Restart { reuse } => json!({"restart": {"reuse_files": reuse}}),
             }).collect::<Vec<_>>(),
         })
@@ -239,6 +274,13 @@ struct Stats {
     backward_steps: u64,
     collisions: u64,
     foreign_present: u64,
+    clock_reads: u64,
+    max_reads_per_attempt: u64,
+    attempts_with_stepping_clock: u64,
+    creating_attempts_right_before_period_boundary: u64,
+    creating_attempts_right_before_milli_boundary: u64,
+    attempts_straddling_period: u64,
+    attempts_straddling_milli: u64,
 }
 
 /// Run one case; violations are (sig, what).
@@ -261,6 +303,8 @@ fn run_case(c: &Case, stats: &mut Stats) -> Vec<(String, String)> {
     }
     stats.foreign_present += c.pre.iter().filter(|(n, _, _)| parse_member(n, &cfg.prefix, &cfg.ext).is_none()).count() as u64;
     let clock = FakeClock::new(c.start);
+    clock.set_step(c.clock_step_ns);
+    let step_ns = c.clock_step_ns;
     let ids = IdRng::new(c.idx + 99, c.ids);
     let mut rig = Rig::new(fs.clone(), clock.clone(), ids, cfg.clone());
     rig.start(c.reuse0);
@@ -275,10 +319,10 @@ fn run_case(c: &Case, stats: &mut Stats) -> Vec<(String, String)> {
             .collect()
     };
 
-    // the file the previous successful batch went to, its clock reading; None after restart / failure
-    let mut current: Option<(String, u64)> = None;
-    // files created by the set: (name, epoch, reading)
-    let mut created: Vec<(String, u64, u64)> = Vec::new();
+    // the file the previous successful batch went to; None after restart / failure
+    let mut current: Option<String> = None;
+    // files created by the set: (name, epoch, (period, millisecond) of every clock reading taken during the creating on_batch)
+    let mut created: Vec<(String, u64, Vec<(String, u64)>)> = Vec::new();
     let mut epoch = 0u64;
     let mut last_reading: Option<u64> = None;
     let mut after_restart = true;
@@ -293,9 +337,26 @@ fn run_case(c: &Case, stats: &mut Stats) -> Vec<(String, String)> {
                 current = None;
                 after_restart = true;
             }
-            Step::Batch { delta_ms, delta_sub_ns, sizes, fail_at } => {
+            Step::Batch { delta_ms, delta_sub_ns, snap, sizes, fail_at } => {
                 let t0 = clock.get();
-                let t = (t0 as i128 + *delta_ms as i128 * 1_000_000 + *delta_sub_ns as i128).clamp(0, MAX_NANOS as i128) as u64;
+                let mut t = (t0 as i128 + *delta_ms as i128 * 1_000_000 + *delta_sub_ns as i128).clamp(0, MAX_NANOS as i128) as u64;
+                let mut snapped = None;
+                if let Some(sn) = snap {
+                    // forwards only: to just before the next boundary after max(t0, t)
+                    let base = t.max(t0);
+                    let (unit, x) = match sn {
+                        Snap::Period(x) => (cfg.roll.period_nanos(), *x),
+                        Snap::Milli(x) => (1_000_000, *x),
+                    };
+                    let mut target = (base / unit + 1) * unit - x.min(unit - 1);
+                    if target < base {
+                        target += unit;
+                    }
+                    if target <= MAX_NANOS {
+                        t = target;
+                        snapped = Some(*sn);
+                    }
+                }
                 clock.set(t);
                 let bufs: Vec<Box<[u8]>> = sizes
                     .iter()
@@ -319,23 +380,49 @@ fn run_case(c: &Case, stats: &mut Stats) -> Vec<(String, String)> {
                 loop {
                     attempts += 1;
                     stats.attempts += 1;
-                    let reading = clock.get();
+                    let first_reading = clock.get();
+                    let reads_before = clock.reads();
                     if let Some(l) = last_reading {
-                        if reading < l {
+                        if first_reading < l {
                             epoch += 1;
                             stats.backward_steps += 1;
                         }
                     }
-                    last_reading = Some(reading);
-                    let (period, _millis) = period_of(cfg.roll, reading);
                     let mut members = members_now(&fs);
-                    let size_before: Option<usize> = current.as_ref().and_then(|(n, _)| fs.lock().files.get(&join_path(edir, n)).map(|f| f.len()));
+                    let size_before: Option<usize> = current.as_ref().and_then(|n| fs.lock().files.get(&join_path(edir, n)).map(|f| f.len()));
                     let log_from = fs.op_count();
                     let pending_bytes: usize = pending.iter().map(|b| b.len()).sum();
                     let res = rig.attempt(std::mem::take(&mut pending));
                     let log: Vec<OpRec> = fs.lock().log[log_from..].to_vec();
                     stats.ops += log.len() as u64;
-                    let when = format!("reading {} ({}), attempt {} -> {}", reading, period, attempts, res.name());
+                    // every clock reading the worker took during this on_batch (the fake clock hands out
+                    // first_reading, first_reading + step, ...)
+                    let n_reads = clock.reads() - reads_before;
+                    let readings: Vec<u64> = (0..n_reads.max(1)).map(|i| first_reading + i * step_ns).collect();
+                    let reading = readings[0];
+                    last_reading = Some(*readings.last().unwrap());
+                    stats.clock_reads += n_reads;
+                    stats.max_reads_per_attempt = stats.max_reads_per_attempt.max(n_reads);
+                    stats.attempts_with_stepping_clock += (step_ns > 0) as u64;
+                    // (period, millisecond-in-period) of every reading
+                    let marks: Vec<(String, u64)> = readings.iter().map(|r| period_of(cfg.roll, *r)).collect();
+                    let periods: BTreeSet<&str> = marks.iter().map(|m| m.0.as_str()).collect();
+                    if periods.len() > 1 {
+                        stats.attempts_straddling_period += 1;
+                    }
+                    if marks.iter().any(|m| *m != marks[0]) {
+                        stats.attempts_straddling_milli += 1;
+                    }
+                    let period = marks[0].0.clone();
+                    let when = format!(
+                        "{} clock reading(s) {:?} (period {}{}), attempt {} -> {}",
+                        n_reads,
+                        &readings[..readings.len().min(3)],
+                        period,
+                        if periods.len() > 1 { format!(" .. {}", marks.last().unwrap().0) } else { String::new() },
+                        attempts,
+                        res.name()
+                    );
 
                     // (f) + (b, created names) + (d, deletions) over the op log
                     let mut written: BTreeSet<String> = BTreeSet::new();
@@ -370,28 +457,50 @@ fn run_case(c: &Case, stats: &mut Stats) -> Vec<(String, String)> {
                                 match op.kind {
                                     OpKind::OpenNew => {
                                         let (p, _, _) = parsed.unwrap();
-                                        if p != period {
-                                            v.push(("C11:name:created-with-wrong-period".into(), format!("{}: created {:?}, the reading's period is {}", when, name, period)));
+                                        if !periods.contains(p) {
+                                            v.push((
+                                                "C11:name:created-with-wrong-period".into(),
+                                                format!("{}: created {:?}; the periods of the readings taken during this batch are {:?}", when, name, periods),
+                                            ));
                                         }
                                         if op.ok() {
                                             stats.files_created += 1;
                                             // (e)
-                                            for (older, _, older_reading) in created.iter().filter(|(_, ep, _)| *ep == epoch) {
-                                                stats.name_pairs_checked += 1;
-                                                if older.as_str() >= name.as_str() {
-                                                    // the known finding is exactly: both files were created in the same
-                                                    // period and the same millisecond of it (by the clock, not by the names)
-                                                    let a = period_of(cfg.roll, *older_reading);
-                                                    let b = period_of(cfg.roll, reading);
-                                                    let sig = if a == b {
-                                                        "C11:name-order:same-period-same-millis".to_string()
-                                                    } else {
-                                                        format!("C11:name-order:newer-sorts-lower:{}", if a.0 == b.0 { "same-period" } else { "different-period" })
-                                                    };
-                                                    v.push((sig, format!("{}: newly created {:?} does not sort after the older {:?} (created at reading {}) although the clock never went backwards in between", when, name, older, older_reading)));
+                                            if let Some(sn) = snapped {
+                                                // a boundary lies within two clock steps after the first reading
+                                                match sn {
+                                                    Snap::Period(_) => stats.creating_attempts_right_before_period_boundary += 1,
+                                                    Snap::Milli(_) => stats.creating_attempts_right_before_milli_boundary += 1,
                                                 }
                                             }
-                                            created.push((name.clone(), epoch, reading));
+                                            let (np, nc, _) = parse_member(&name, &cfg.prefix, &cfg.ext).unwrap();
+                                            for (older, _, older_marks) in created.iter().filter(|(_, ep, _)| *ep == epoch) {
+                                                stats.name_pairs_checked += 1;
+                                                if older.as_str() >= name.as_str() {
+                                                    // The listed known finding is exactly: the two NAMES carry the same period and the same
+                                                    // millisecond counter (then only the random id orders them). It is only recognised when
+                                                    // the clock agrees, i.e. some reading of either creating batch falls into one common
+                                                    // millisecond of one period; anything else is a different ordering violation.
+                                                    let (op_, oc, _) = parse_member(older, &cfg.prefix, &cfg.ext).unwrap();
+                                                    let names_tie = op_ == np && oc == nc;
+                                                    let clock_tie = older_marks.iter().any(|m| marks.contains(m));
+                                                    let sig = if names_tie && clock_tie {
+                                                        "C11:name-order:same-period-same-millis".to_string()
+                                                    } else if names_tie {
+                                                        "C11:name-order:newer-sorts-lower:same-counter-but-created-in-different-milliseconds".to_string()
+                                                    } else {
+                                                        format!("C11:name-order:newer-sorts-lower:{}", if op_ == np { "same-period" } else { "different-period" })
+                                                    };
+                                                    v.push((
+                                                        sig,
+                                                        format!(
+                                                            "{}: newly created {:?} does not sort after the older {:?} (created during readings {:?}) although no clock reading ever went backwards in between",
+                                                            when, name, older, older_marks
+                                                        ),
+                                                    ));
+                                                }
+                                            }
+                                            created.push((name.clone(), epoch, marks.clone()));
                                             members.insert(name.clone());
                                         } else if op.res == Res::NaturalErr {
                                             stats.collisions += 1;
@@ -446,18 +555,23 @@ fn run_case(c: &Case, stats: &mut Stats) -> Vec<(String, String)> {
                             };
                             // (b)
                             let (wp, _, _) = parse_member(&w, &cfg.prefix, &cfg.ext).unwrap();
-                            if wp != period {
-                                v.push(("C11:name:written-file-has-other-period".into(), format!("{}: wrote to {:?}", when, w)));
+                            if !periods.contains(wp) {
+                                v.push(("C11:name:written-file-has-other-period".into(), format!("{}: wrote to {:?}; periods of this batch's readings: {:?}", when, w, periods)));
                             }
                             let created_now = log.iter().any(|o| o.kind == OpKind::OpenNew && o.ok());
                             // (c)
-                            if let (Some((cur, cur_reading)), Some(sz)) = (&current, size_before) {
+                            if let (Some(cur), Some(sz)) = (&current, size_before) {
                                 stats.roll_decisions_checked += 1;
-                                let period_changed = period_of(cfg.roll, *cur_reading).0 != period;
+                                // the current file's period (from its name, validated when it was written) against the
+                                // periods of this batch's readings: none of them => must roll; all of them => must not
+                                // roll for that reason; some (readings straddle a boundary) => either is fine
+                                let cur_period = parse_member(cur, &cfg.prefix, &cfg.ext).map(|p| p.0.to_string()).unwrap_or_default();
+                                let period_changed = !periods.contains(cur_period.as_str());
+                                let period_ambiguous = !period_changed && periods.len() > 1;
                                 let over = sz + pending_bytes > cfg.max_size;
                                 // a new file counts as a roll even if (after the old one was deleted) it got the same name
                                 let rolled = *cur != w || created_now;
-                                if rolled && !(period_changed || over) {
+                                if rolled && !(period_changed || over || period_ambiguous) {
                                     let class = if cfg.prefix.contains('.') { "prefix-with-dot" } else { "plain-prefix" };
                                     v.push((
                                         format!("C11:roll:spurious:{}", class),
@@ -466,7 +580,7 @@ fn run_case(c: &Case, stats: &mut Stats) -> Vec<(String, String)> {
                                 } else if !rolled && (period_changed || over) {
                                     v.push((
                                         format!("C11:roll:missing:{}", if period_changed { "period-changed" } else { "size-limit" }),
-                                        format!("{}: stayed on {:?} ({} bytes before, batch {} bytes, limit {}, previous period {})", when, cur, sz, pending_bytes, cfg.max_size, period_of(cfg.roll, *cur_reading).0),
+                                        format!("{}: stayed on {:?} ({} bytes before, batch {} bytes, limit {}, previous period {})", when, cur, sz, pending_bytes, cfg.max_size, cur_period),
                                     ));
                                 }
                                 if rolled {
@@ -501,7 +615,7 @@ fn run_case(c: &Case, stats: &mut Stats) -> Vec<(String, String)> {
                                     ));
                                 }
                             }
-                            current = Some((w, reading));
+                            current = Some(w);
                             after_restart = false;
                             let _ = batch_bytes;
                             break;
@@ -539,6 +653,8 @@ fn run_case(c: &Case, stats: &mut Stats) -> Vec<(String, String)> {
     v
 }
 
+static MAX_READS: std::sync::atomic::AtomicU64 = std::sync::atomic::AtomicU64::new(0);
+
 fn evaluate(r: &mut Report, seed: u64, idx: u64) {
     let c = gen_case(seed, idx);
     let mut st = Stats::default();
@@ -560,6 +676,13 @@ fn evaluate(r: &mut Report, seed: u64, idx: u64) {
     r.observe("backward-clock-steps", st.backward_steps);
     r.observe("file-name-collisions", st.collisions);
     r.observe("non-member-files-present-in-directory", st.foreign_present);
+    r.observe("clock-readings-taken-by-the-worker", st.clock_reads);
+    r.observe("on_batch-attempts-with-a-clock-that-advances-on-every-reading", st.attempts_with_stepping_clock);
+    r.observe("file-creating-attempts-within-two-clock-steps-before-a-period-boundary", st.creating_attempts_right_before_period_boundary);
+    r.observe("file-creating-attempts-within-two-clock-steps-before-a-millisecond-boundary", st.creating_attempts_right_before_milli_boundary);
+    r.observe("on_batch-attempts-whose-own-readings-straddle-a-period-boundary", st.attempts_straddling_period);
+    r.observe("on_batch-attempts-whose-own-readings-straddle-a-millisecond-boundary", st.attempts_straddling_milli);
+    MAX_READS.fetch_max(st.max_reads_per_attempt, std::sync::atomic::Ordering::Relaxed);
     if st.files_created >= 2 && (st.deletions > 0 || st.rolls_period > 0 || st.rolls_size > 0) {
         r.nontrivial(&idx);
     }
@@ -593,5 +716,6 @@ fn main() {
     let n = args.n(200_000, 4_000_000);
     r.set("cases", json!(n));
     par_cases(&mut r, &args, n, |i, r| evaluate(r, seed, i));
+    r.set("max_clock_reads_per_on_batch", json!(MAX_READS.load(std::sync::atomic::Ordering::Relaxed)));
     std::process::exit(r.finish());
 }
